@@ -216,8 +216,37 @@ def model_prog(prog: list, in_bits: list[int]) -> list:
     return [["X", q] for q, b in enumerate(in_bits) if b] + [g for g in prog]
 
 
+def forest_ok(prog: list) -> bool:
+    """the rule `legalise` enforces: if a post-selected two-qubit gate is present, the entangling gates form a forest over
+    the logical qubits (only then does the final dual-rail post-selection implement the PRODUCT of the gates: two
+    post-selected gates sharing both qubits, or closing a cycle, do not compose to a product of gates)"""
+    ent = [g for g in prog if g[0] in ("CZ", "CNOT")]
+    if not any(g[3]["impl"] == "ps" for g in ent):
+        return True
+    n = 1 + max([max(g[1], g[2]) for g in prog if g[0] in ("CZ", "CNOT", "SWAP")] + [0])
+    parent = list(range(n))
+    pos = list(range(n))
+
+    def find(x):
+        while parent[x] != x:
+            x = parent[x]
+        return x
+
+    for g in prog:
+        if g[0] == "SWAP":
+            pos[g[1]], pos[g[2]] = pos[g[2]], pos[g[1]]
+        elif g[0] in ("CZ", "CNOT"):
+            a, b = find(pos[g[1]]), find(pos[g[2]])
+            if a == b:
+                return False
+            parent[a] = b
+    return True
+
+
 def is_modelable(prog: list) -> bool:
-    return all(g[0] not in ("MODEU", "PRIM", "HERU") for g in prog)
+    """the exact qubit-level model follows the program: no mode-level pieces, and the post-selected gates compose (a wild
+    program or a shrunk one may break the forest rule: it is then judged by the oracles alone)"""
+    return all(g[0] not in ("MODEU", "PRIM", "HERU") for g in prog) and forest_ok(prog)
 
 
 # --------------------------------------------------------------------------- states / settings
